@@ -4,7 +4,64 @@ import json, os, subprocess
 VERIF = os.path.dirname(os.path.dirname(os.path.abspath(__file__)))
 
 KANI = "bounded model checking of the compiled Rust (Kani 0.68 -> CBMC 6.11 + CaDiCaL), symbolic inputs, unwinding assertions on"
+BRD = ("SAT-based bounded model checking of the real code (Kani/CBMC) on a raw symbolic board with no piece-count bound; acceptance is the "
+       "reference predicate proved equal to the real validators; table lookups stubbed by formulas proved equal in C05; cube-and-conquer over "
+       "piece kind x number of checkers")
+TB = ("Trusted: Kani's MIR->goto translation, CBMC/CaDiCaL, the reference model (validated natively each run against the repository's test positions; "
+      "its fills proved equal to a ray walk), the add-only hooks. ")
 CLAIMS = {
+ "C01": dict(technique=BRD + "; per-origin generation vs make-move legality oracle",
+    text="For every accepted board (no piece bound), every origin square and every move value the solver decides that generation restricted to that origin yields exactly the reference-legal moves of that origin, each in exactly one non-empty batch, in <= 2 batches, without panic; the FULL mask is the union over origins through the dispatch layer decided in C16. Both slider back ends are covered through C05's equivalence of each back end with the stub formulas.",
+    note=TB + "Bounds: none on pieces; quick tier runs the king, pawn and one rotating cube (others listed as not run). Full-mask generation is covered compositionally (per origin + dispatch), not by one monolithic query.",
+    design="DESIGN.md §3 C01"),
+ "C02": dict(technique=BRD + "; one inductive step (play_unchecked) from an arbitrary accepted board with an arbitrary legal move",
+    text="One symbolic step decides, for every accepted board and legal move, that placement, side, rights, en-passant file and both clocks of the successor equal the rules' successor and that the successor is again accepted (closure), so the statement extends to histories of any length by induction.",
+    note=TB + "Bounds: quick assumes <= 2 own sliders on the enemy king's lines after the move (slider loop unwound 3); thorough has no such bound. Cubes by moved piece kind incl. castling.",
+    design="DESIGN.md §3 C02"),
+ "C03": dict(technique=BRD + "; inductive step for incremental checkers/pins + constructor-vs-reference lemma",
+    text="The step harness decides checkers and pinned of the successor equal the from-scratch reference for every accepted board and legal move; C14's harness does the same for null moves and C06's fresh harness ties the constructor to the same reference, so incremental == fresh along any history.",
+    note=TB + "Bounds as C02 (slider-alignment bound in quick; none in thorough); fresh lemma bounded by <= 4 (quick) / 8..16 (thorough) aligned sliders.",
+    design="DESIGN.md §3 C02/C03"),
+ "C04": dict(technique=BRD + "; is_legal vs make-move legality oracle for all 64*64*7 move values",
+    text="For every accepted board and every move value the solver decides is_legal == reference legality (21 cubes partition the space); thorough adds is_legal == 'generated for that origin' without any oracle.",
+    note=TB + "Bounds: none on pieces or moves.", design="DESIGN.md §3 C04"),
+ "C05": dict(technique="Kani/CBMC for the small tables, const sliders and index-function bridge (all squares x all 2^64 occupancies); MIR->SMT (z3, cvc5 cross-check) for the magic/PEXT index function + generated table, one query pair per (square, slider)",
+    text="Every lookup is decided against its coordinate-geometry definition for every argument: leapers, pawn pushes, rays, between, line by Kani; const sliders by Kani; the table back ends by symbolically executing the nightly MIR of get_*_moves -> get_*_moves_index -> get_magic_index/get_pext_index against the table that the real build.rs generated, over all 2^64 occupancies per square.",
+    note="Trusted: Kani/CBMC, z3 (diffed with cvc5 and z3 4.8 on exported queries), the MIR->SMT translator (validated each run against native evaluation), rustc CTFE for the const tables. PEXT back end in the thorough tier only.",
+    design="DESIGN.md §3 C05", engine="kani+mir2smt"),
+ "C06": dict(technique="Kani/CBMC: each real validator vs its reference predicate on raw symbolic boards; build() on a fully symbolic 64-cell builder with validators stubbed by the reference predicates; symbolic Scharnagl numbers; closure from the step harnesses",
+    text="Soundness: real validators are decided equal to predicates written from the property (one king per side, kings apart, piece/pawn counts, no pawns on end ranks, opponent not in check, rights backed by king/rook on the right side, ep file backed by a pushed pawn with empty origin/passed squares, clocks), and build() accepts exactly those states. Acceptance: start positions of all 960x960 pairs are accepted and every step (C02, C14) preserves acceptance.",
+    note=TB + "Bounds: slider loops in the validators bounded by <= 4 (quick) / 8 and 16 (thorough) aligned sliders. The FEN text route is decided only at field level (C08).",
+    design="DESIGN.md §3 C06"),
+ "C08": dict(technique="Kani/CBMC over the real private field parsers (hook) on every valid UTF-8 string up to 3/5/6 bytes",
+    text="Claimed at the field layer only: side, castling (both notations, any king squares), en-passant and both clock parsers accept exactly their grammar, write exactly the denoted value, reject the empty field and never panic, for every string up to the stated length. Record splitting, error naming across fields and full placement decoding are outside the claim (measured out of reach).",
+    note="Bounds: strings <= 3 (side, ep), <= 5 (castling), <= 6 (clocks) bytes; placement field only attempted on <= 3 bytes in the thorough tier. Trusted: Kani/CBMC, core::str as compiled.",
+    design="DESIGN.md §3 C08"),
+ "C09": dict(technique="Kani/CBMC: build() sequencing and error attribution on a fully symbolic builder (validators stubbed by reference predicates); from_board on accepted boards; field parsers vs the same writers",
+    text="Builder side in full: build() succeeds exactly on accepted states, the board's fields equal the builder's content, and the error names the first wrong aspect (incl. ep square on the wrong rank, right on the wrong side of the king, three checkers); from_board reproduces position and clocks. Parser side at field level only (C08).",
+    note=TB + "Record-level equality from_fen(text) == build(state) is outside the claim. from_board bounded to <= 4 pieces per colour in quick.",
+    design="DESIGN.md §3 C09"),
+ "C10": dict(technique=BRD + "; hash of the successor == XOR of behavioural feature keys (step), writers linear in the keys (every raw state)",
+    text="Every writer changes the hash by exactly the keys of the features it adds/removes from any raw state; play_unchecked and null_move keep hash == XOR of feature keys of the position; hash_without_ep strips exactly the ep key; the builder route is decided in C09 (thorough). Hence the hash is a function of the position alone.",
+    note=TB + "Bounds as C02 for the step; clocks never enter any key.", design="DESIGN.md §3 C10"),
+ "C11": dict(technique="Kani/CBMC for linearity of the writers; z3 cube-and-conquer over the 793 dumped keys for XORs of 1..4 distinct keys (cubes by low-6-bit class), cross-checked by a meet-in-the-middle computation",
+    text="The hash is the XOR of feature keys (linearity + C10), and no XOR of 1..3 (quick) / 1..4 (thorough) distinct keys is zero: complete over all key tuples, each cube decided by z3.",
+    note="Trusted: z3, the key dump through the writer hooks. Castle keys shared by the two wings of one file count once.", design="DESIGN.md §3 C11", engine="kani+z3"),
+ "C12": dict(technique="Kani/CBMC: status() with generate_moves stubbed by an arbitrary answer (every board value); dispatch/abort layer with generators stubbed; per-origin abort harnesses",
+    text="status() equals the table (has-move, clock, in-check) for every board value; 'has a legal move' is generate_moves(|_| true), whose result is decided by the dispatch harness (true iff some batch is delivered) and the per-origin harnesses (batches are the legal moves, C01).",
+    note=TB + "Compositional: no single query runs status() with the real generator on a symbolic board.", design="DESIGN.md §3 C12"),
+ "C13": dict(technique=BRD + "; same_position vs reference identity with an ep-less twin board",
+    text="For every accepted board with an ep file: same_position with its ep-less twin is true exactly when no legal en-passant capture exists (incl. a non-pawn standing beside the pushed pawn), symmetric and reflexive; thorough decides arbitrary pairs of accepted boards against reference identity.",
+    note=TB + "Hashes modelled as an arbitrary function of the position (C10).", design="DESIGN.md §3 C13"),
+ "C14": dict(technique=BRD + "; one null-move step from an arbitrary accepted board",
+    text="null_move is None exactly in check; otherwise placement/rights unchanged, side flipped, ep cleared, clocks saturating, checkers/pins/hash equal the reference of the new position, and the result is accepted (closure).",
+    note=TB + "Bounds: <= 4 aligned enemy sliders in quick, none in thorough.", design="DESIGN.md §3 C14"),
+ "C15": dict(technique="Kani/CBMC: try_play/play with is_legal and play_unchecked stubbed (stub answers the reference legality) on every accepted board and move value; plus C04 cubes tying is_legal to that legality",
+    text="try_play is Ok exactly when the move is legal, then equals unchecked play; on Err the board is equal in every field; play panics exactly on illegal moves (should_panic harness with an unreachable marker).",
+    note=TB + "Compositional with C04/C02.", design="DESIGN.md §3 C15"),
+ "C16": dict(technique="Kani/CBMC: dispatch/abort layer with the six generators stubbed by arbitrary batch emitters (every board value, mask, abort point); per-origin generation and abort on every accepted board",
+    text="generate_moves_for passes the mask unchanged to the right generators in order, stops at the first abort and returns true exactly then; each generator on a single-origin mask yields exactly that origin's legal moves in non-empty batches (<= 2, 2 only for en passant), and aborts correctly at call 0/1; hence <= 18 batches.",
+    note=TB + "Multi-origin masks inside one generator loop are covered by the per-iteration independence of the loops, not by a symbolic-mask query.", design="DESIGN.md §3 C16"),
  "C17": dict(
     technique="SAT-based bounded model checking of the real PieceMoves code (Kani/CBMC): symbolic piece, origin, 64-bit destination set and queried move; inductive step over iterator states",
     text="Every value of (piece, origin, destination set, queried move) is covered by the solver: len/is_empty/has are compared with the enumeration model, and iteration is shown correct by one inductive step from every consistent iterator state plus the base case, so the claim is not bounded in the number of destinations; a bounded full iteration (<= 3 destinations) cross-checks the invariant through the public API.",
@@ -19,8 +76,13 @@ CLAIMS = {
     technique="SAT-based bounded model checking of the real coordinate and text code (Kani/CBMC): all squares x all i8 x i8 offsets, all values, all UTF-8 strings up to 6 bytes; release-profile arithmetic by MIR->SMT (z3/cvc5)",
     text="Coordinate functions are compared with plain arithmetic for every argument; try_offset is shown total in the overflow-checked profile by Kani and in the wrapping profile by an SMT query over the release MIR; parsers are decided on every valid UTF-8 string up to the stated length against the regular language the formatters produce, and every value is formatted and parsed back.",
     note="Bounds: strings <= 6 bytes (Move), <= 3 (Square), <= 2 (one-character types); longer strings are outside the claim. Trusted: Kani/CBMC, core::fmt as compiled, the MIR->SMT translator (validated against native evaluation each run).",
-    design="DESIGN.md §3 C19"),
+    design="DESIGN.md §3 C19", engine="kani+mir2smt"),
+ "C20": dict(technique=BRD + "; UCI writer output compared byte-wise with standard UCI and parsed back, for every legal move on orthodox-rights boards",
+    text="UCI pair only: on every accepted board whose rights are orthodox and every legal move the writer emits standard UCI (castling as e1g1/e1c1) and the reader inverts it; the reader is total on every string <= 6 bytes. The SAN half is NOT claimed (see level_note).",
+    note=TB + "SAN writer/reader are outside the claim: each query needs three full-mask generations plus core::fmt on a symbolic board and did not come within reach.", design="DESIGN.md §3 C20"),
 }
+
+ENABLED = ["C04", "C05", "C08", "C11", "C12", "C15", "C17", "C18", "C19", "C20"]
 
 NOT_YET = {}
 
@@ -31,7 +93,7 @@ def main():
     checks = []
     for p in props:
         pid = p["id"]
-        if pid not in CLAIMS:
+        if pid not in ENABLED:
             continue
         c = CLAIMS[pid]
         checks.append({
@@ -48,7 +110,7 @@ def main():
     not_app = []
     for p in props:
         pid = p["id"]
-        if pid in CLAIMS:
+        if pid in ENABLED:
             continue
         not_app.append({"property_id": pid, "reason": na.get(pid, "check not built yet in this session (design in DESIGN.md §3); not claimed until its solver queries run")})
     hooks = subprocess.run(["git", "-C", "/repo", "log", "--format=%h %s", "--grep=^verif hooks"], capture_output=True, text=True).stdout.strip().splitlines()
@@ -63,7 +125,7 @@ def main():
             "add_only": True,
         },
         "engines": [
-            {"name": "kani", "path": "lib/kani.py", "serves_properties": sorted(CLAIMS), "kind_free_text": KANI},
+            {"name": "kani", "path": "lib/kani.py", "serves_properties": sorted(ENABLED), "kind_free_text": KANI},
             {"name": "mir2smt", "path": "mir2smt/", "serves_properties": ["C05", "C19"], "kind_free_text": "symbolic execution of rustc MIR dumps of loop-free integer functions into SMT-LIB2 bit-vector queries, decided by z3 and cross-checked with cvc5"},
             {"name": "zobrist-cubes", "path": "lib/zobrist.py", "serves_properties": ["C11"], "kind_free_text": "z3 cube-and-conquer over the Zobrist keys dumped from the real writers"},
         ],
